@@ -52,6 +52,8 @@ impl Prop for C14 {
         let init = get(c, "init"); let n = getn(c, "n");
         let name_pool = ["team=dev", "team=ops", "dave", "erin with spaces", "frédérique", "名前", "#hash", "i]j[", "k'l\"m", "Name", "[Key]"];
         let mut names: Vec<String> = (0..n).map(|i| if i == 3 { "x".repeat(128) } else if i < name_pool.len() { name_pool[(i + rng.below(2)) % name_pool.len()].to_string() } else { format!("key number {}", i) }).collect();
+        // every third history generates names that are prefixes / case variants of one another (and one of 127 bytes): all distinct, all legal
+        if getn(c, "seed") % 3 == 0 { for (i, f) in ["Bob", "Bob Smith", "bob", "Bo"].iter().enumerate() { if i < names.len() { names[i] = f.to_string(); } } if names.len() > 4 { names[4] = "y".repeat(127); } }
         names.dedup(); let mut seen = std::collections::HashSet::new(); names.retain(|x| seen.insert(x.clone()));
         let pws = ["", "pw", "pässwörd 🔑"];
         let mut cur = initial(init);
@@ -84,7 +86,7 @@ impl Prop for C14 {
         }
         // every generated key is usable with its own password: encrypt to it from itself, decrypt back
         let ring = cur.unwrap_or_default();
-        for (name, pw) in gen.iter().take(3) {
+        for (name, pw) in gen.iter().take(4) {
             let plain = rng.bytes(40);
             let w1 = World { files: vec![("ring.txt".into(), ring.clone()), ("p.bin".into(), plain.clone())], env: vec![("KESTREL_PASSWORD".into(), pw.clone())], stdin: vec![] };
             let e = run_kestrel(&w1, &sv(&["encrypt", "p.bin", "-t", name, "-f", name, "-o", "c.bin", "-k", "ring.txt", "--env-pass"]));
